@@ -66,7 +66,8 @@ CHECKS["C02"] = dict(
     technique="explicit-state model checking of the implementation: every API history incl. present-but-empty arguments up to a depth bound; every closed output strict-parsed and schema-validated by an independent reader",
     level_text="Every closed output of every explored history must be exactly one well-formed CBOR item that validates against the RFC 8618 schema (declared counts, mandatory members, index closure, parameter-set closure); outputs without a block must have zero uncompressed bytes.",
     level_note=_HIST_NOTE,
-    stages=[dict(harness="hist", variant="plain", args=["--mode", "wellformed"])],
+    stages=[dict(harness="hist", variant="plain", args=["--mode", "wellformed"]),
+            dict(harness="blk", variant="asan", args=["--mode", "direct"], prefix="direct_")],
     rule="stateless DFS over 13 operations incl. BlockStatistics() (present but empty) on QR/AEC/MM calls, unstorable records, rotations, parameter-set additions x 3 configurations (max_block_items 0/2/10000)",
     bound_quick="length <= 4", bound_thorough="length <= 5",
     assumptions=["CDDL '+' (non-empty) cardinalities are not enforced (DESIGN 8.2)"],
@@ -78,7 +79,8 @@ CHECKS["C10"] = dict(
     level_text="(a) every encoder call in the E-ENC exploration returns the length of the bytes it appended; (b) along every exporter history the sum of returned counts since an output was opened equals that output's uncompressed size (+1 for the break written by destruction).",
     level_note=_HIST_NOTE,
     stages=[dict(harness="enc", variant="asan", prefix="enc_"),
-            dict(harness="hist", variant="plain", args=["--mode", "counts"])],
+            dict(harness="hist", variant="plain", args=["--mode", "counts"]),
+            dict(harness="blk", variant="asan", args=["--mode", "direct"], prefix="direct_")],
     rule="E-ENC traces (see C06) + stateless DFS over 10 exporter operations x {memory, gzip, descriptor, named file} sinks",
     bound_quick="exporter histories of length <= 3; encoder: as C06 quick", bound_thorough="exporter histories of length <= 4 (+xz, gzip file); encoder: as C06 thorough",
     assumptions=[],
@@ -167,3 +169,27 @@ CHECKS["C17"] = dict(
     assumptions=[],
 )
 ENGINES.append(dict(name="E-VAL", path="harness/val.cpp", serves_properties=["C04", "C09", "C17"], kind_free_text="exhaustive value/configuration grids against reference arithmetic and the independent reader"))
+
+CHECKS["C11"] = dict(
+    level="model_checking", engine="E-BLK",
+    technique="explicit-state model checking of the implementation: every add/get/find/clear sequence up to a depth on each of the nine real block tables against a vector + linear search model; growth runs; exhaustive hash/equality pairs",
+    level_text="For each of the nine block tables every operation sequence up to the depth bound over {add(v) for a pool of values differing in exactly one member (absent vs present-0 vs present-1), get(0), get(1), get(size), find(v0), find(v1), clear} runs on a real CdnsBlock; returned indices, retrieved values, sizes and find results must equal the model's after every step, and all stored entries must still be retrievable at the end. Growth: N distinct values then each re-added per table (deque chunk boundaries, rehash). Hash/equality: all pairs of a 600-value signature pool and the RR / malformed-message-data pools: equal => equal hash, unequal whenever a member differs. Through the exporter (E-HIST, every history of C01/C02/C12): no block of any output contains two equal table entries or an entry unreachable from its items.",
+    level_note="Trusted: model = std::vector + linear search on canonical strings. Pools are small by design (collisions are forced); table contents larger than 20000 entries are outside the bound.",
+    stages=[dict(harness="blk", variant="asan", args=["--mode", "tables"]),
+            dict(harness="hist", variant="plain", args=["--mode", "roundtrip"], prefix="exporter_")],
+    rule="stateless DFS per table over (pool size + 6) operations, every sequence of length 2..D; all distinct and non-trivial",
+    bound_quick="depth 5; growth N = 5000", bound_thorough="depth 6; growth N = 20000",
+    assumptions=[],
+)
+
+CHECKS["C19"] = dict(
+    level="model_checking", engine="E-BLK",
+    technique="explicit-state model checking of the implementation under AddressSanitizer: every (content, way of copying, fate of the source, follow-up operation sequence) combination, differential against a freshly built block",
+    level_text="Contents {empty, one full QR, QR+AEC+MM with RR lists, 300 distinct values per table} x ways {copy ctor, move ctor, copy assign, move assign, the four CdnsBlockRead variants, block = reader.read_block()} x fate of the source {kept, values added, cleared, cleared and refilled with different values, destroyed} x every sequence of follow-up operations up to the depth bound from {re-add an existing value (9 tables), add new values, get, generic add sharing values, repeated address event, serialise, read_generic_*}: every observation (indices, sizes, serialised bytes, generic records) must equal that of the same operations on a freshly built block, the source must not be affected by operations on the copy, and AddressSanitizer must stay silent (forked workers attribute a use-after-free to the exact case).",
+    level_note="Trusted: differential oracle (fresh block built / read the same way), ASan. Quarantine 32 MiB keeps freed source blocks poisoned while the copy is exercised.",
+    stages=[dict(harness="blk", variant="asan", args=["--mode", "copy"])],
+    rule="product enumerated exhaustively; follow-up sequences by stateless DFS; all distinct and non-trivial",
+    bound_quick="follow-up sequences of length <= 2 over 15 operations", bound_thorough="length <= 3 (content with 300 values: <= 2)",
+    assumptions=[],
+)
+ENGINES.append(dict(name="E-BLK", path="harness/blk.cpp", serves_properties=["C11", "C19", "C02", "C10"], kind_free_text="exhaustive operation-sequence enumeration on real CdnsBlock / CdnsBlockRead objects"))
